@@ -51,7 +51,10 @@ Bases == SeqOf(PartBases) \o <<
   [f |-> << <<Plain(1), Plain(2)>> >>, lay |-> "trailing_comma", sv |-> 0],
   \* alternatives on lines of their own: the newline follows the '|'
   [f |-> << <<Plain(1), Plain(2)>>, <<Plain(3)>> >>, lay |-> "pipe_newline", sv |-> 0],
-  [f |-> << <<Plain(3)>>, <<Plain(1), R(2, 1, 0, 0, 0)>> >>, lay |-> "pipe_newline", sv |-> 0]
+  [f |-> << <<Plain(3)>>, <<Plain(1), R(2, 1, 0, 0, 0)>> >>, lay |-> "pipe_newline", sv |-> 0],
+  \* one entry per line, every line ending in a comma (the field ends ",\n")
+  [f |-> << <<Plain(1)>> >>, lay |-> "comma_newline", sv |-> 0],
+  [f |-> << <<Plain(1)>>, <<Plain(2), Plain(3)>> >>, lay |-> "comma_newline", sv |-> 0]
 >>
 
 VARIABLES field, base, hist
